@@ -59,7 +59,7 @@ _TB_MD = ["pyvc encoder (A-ENC)", "z3 / cvc5 (A-SMT)", "pydantic parse/dump and 
           "hash libraries (A-HASH), file reads (A-IO)",
           "tree summation and counting lemmas: machine-checked in Lean (lemmas/TreeExact.lean, lemmas/Count.lean), not trusted",
           "DatasetWriting.write_multiprocessing (Pool / pickle plumbing): bounded stand-in with real worker processes, not proved",
-          "_DatasetFillerContext._get_new_shard: assumed contract (constructor glue), source pinned by hash",
+          "get_shard_writer (dispatch to the three writer constructors): assumed contract, audited at run time, source pinned by hash",
           "termination of the recursion in merge_shard_infos: not verified (partial correctness)"]
 _MD = ["A-ENC", "A-SMT", "A-PYD", "A-FS", "A-SYMLINK", "A-HASH", "A-IO", "A-STD", "A-LEMMA-TREE", "A-LEMMA-COUNT", "A-PATHTOKEN"]
 PLAN.update({
@@ -67,7 +67,7 @@ PLAN.update({
         explanation="proof part: sedpack's glue around the libraries: the codec tables pair every compression name with inverse functions; the FlatBuffers writer stores the little-endian C-order bytes of the safely cast value (byte-order branch table proved against an LE specification) and the reader decodes with the inverse composition; the npz writer buffers an independent copy per declared attribute; the TFRecord encoder checks names / shapes / dtype kinds. Not proved: the numeric behaviour of numpy / flatbuffers / TensorFlow / codecs (assumed algebra, audited by a bounded bit-pattern round-trip matrix over formats x compressions x dtypes x ranks x layouts x readers)",
         trusted_base=["pyvc encoder", "z3/cvc5", "numpy / flatbuffers / TensorFlow / codec behaviour (A-NP, A-NPZ, A-TF, A-CODEC, A-FB; audited, bounded)", "native reader (A-RUST)"]),
     "C04": dict(level="other", assumptions=_MD,
-        explanation="proof part: representation invariant = (i) DISK_OK: every complete list document is valid, locally exact, names only complete files, children one directory below and named once; (ii) GINV: a ghost set of certified list files, each with every child entry exact for the child file (count, shard count, digests under the dataset's algorithms) and certified itself; (iii) every split entry of the description exact and certified. Proved for arbitrary prior state (induction step over sessions): preserved by Shard.write / Shard.close / close_shard / write_example / _update_infos, re-established by DatasetFiller.__exit__ -> DatasetWriting.write_config -> merge_shard_infos (grouping, recursion, children before parents, 171 + 77 obligations) and by Dataset.create; the recorded totals then equal the actual totals by the Lean lemma. Bounded stand-in (NOT proved): write_multiprocessing (worker processes), plus fixed + random session histories (incl. deferred / stale updates) with an independent audit of the whole tree",
+        explanation="proof part: representation invariant = (i) DISK_OK: every complete list document is valid, locally exact, names only complete files, children one directory below and named once; (ii) GINV: a ghost set of certified list files, each with every child entry exact for the child file (count, shard count, digests under the dataset's algorithms) and certified itself; (iii) every split entry of the description exact and certified. Proved for arbitrary prior state (induction step over sessions): preserved by Shard.write / Shard.close / close_shard / write_example / _update_infos, re-established by DatasetFiller.__exit__ -> DatasetWriting.write_config -> merge_shard_infos (grouping, recursion, children before parents; ~200 + 79 obligations, incl. 'nothing is dropped at any level': every deeper update and every previous child entry has a child entry in the list written, shard entries kept) and by Dataset.create; the recorded totals then equal the actual totals by the Lean lemma. Bounded stand-in (NOT proved): write_multiprocessing (worker processes), plus fixed + random session histories (incl. deferred / stale updates) with an independent audit of the whole tree",
         trusted_base=_TB_MD),
     "C05": dict(level="other", assumptions=_MD,
         explanation="proof part (detection): check() returning normally implies: supplied description checksums match; for every split the list file and, recursively, EVERY child list has the recorded digests (SUBOK); EVERY file info of EVERY shard of every split matches, with the dataset's configured algorithms; hash_checksums proved to feed each hash exactly the file prefix read. Proof part (acceptance): after every session ending in DatasetFiller.__exit__ / DatasetWriting.write_config every split entry is exact for its list file and so is every child entry below it, with the dataset's algorithms (C04's invariant, merge_shard_infos proved). Not proved: that check()'s traversal accepts exactly when this invariant holds (detection and acceptance are stated over the same digests but the equivalence is not a VC); write_multiprocessing. Bounded: tamper matrix over all reachable files, histories",
